@@ -306,3 +306,24 @@ def makefile_stream(data: bytes):
     f = b.makefile("rb")
     b.close()
     return f, t
+
+
+class SeekableRecordingStream(RecordingStream):
+    """RecordingStream that also offers seek()/tell()/seekable() like a regular file or BytesIO."""
+
+    def seekable(self):
+        return True
+
+    def tell(self):
+        return self.pos
+
+    def seek(self, offset, whence=0):
+        if whence == 0:
+            self.pos = offset
+        elif whence == 1:
+            self.pos += offset
+        else:
+            self.pos = len(self.data) + offset
+        self.pos = max(0, min(self.pos, len(self.data)))
+        self.log.append((self.calls, "seek", self.pos, offset, 0, None))
+        return self.pos
